@@ -128,9 +128,24 @@ def mutants(rng, rd, ws0, names, byte_budget, per_kind):
                                      and not (i + 2 < len(ps) and ps[i + 1][0] == "ws" and ps[i + 2][0] == "data")]
     for i in pick(spots, per_kind):
         yield ("stray-text", ws0 + join(ps[:i] + [("data", rng.choice(["junk", "x", "0", "a b"]), None)] + ps[i:]))
+    # ---- stray text directly after the CDATA section of a data element (with or without end tag, before or after the blanks that follow it):
+    #      read as XML the text belongs to the element's data; the parser may refuse it, but must not drop it silently
+    cds = [i for i, p in enumerate(ps) if p[0] == "data" and p[1].startswith("<![CDATA[")]
+    for i in pick(cds, max(3, per_kind)):
+        for j in ((i + 1, i + 2) if (i + 1 < len(ps) and ps[i + 1][0] == "ws") else (i + 1,)):
+            junk = rng.choice(["junk", "PLEASE DISREGARD 1,000,000.00", " x", "0"])
+            yield ("stray-text-after-cdata", ws0 + join(ps[:j] + [("data", junk, None)] + ps[j:]))
     # ---- second top-level element
     for extra in pick(["<B>y</B>", "<OFX></OFX>", "\n<A>x", "<%s></%s>" % (rd[1], rd[1]), text], 3):
         yield ("second-root", text + extra)
+
+
+def with_cdata(rng, rd):
+    if rd[0] == "agg":
+        return ("agg", rd[1], rd[2], [with_cdata(rng, c) for c in rd[3]], rd[4])
+    if S.cdata_ok(rd[4]) and rng.random() < 0.7:
+        return rd[:2] + (True,) + rd[3:7] + (rng.choice(["", "\r\n", "\n", " "]),)
+    return rd
 
 
 def run(rep, tier, rng):
@@ -147,18 +162,49 @@ def run(rep, tier, rng):
     def fail(key, what, **replay):
         fails.append(C.Failure(key, what, replay))
 
+    cur = {"base": None, "want": None, "n": 0, "leaked": False}
+
+    def state_check(m, out):
+        """a refused body must not influence the next parse (fresh TreeBuilder each time): re-read the valid body after every few refusals"""
+        if cur["base"] is None or cur["leaked"] or out[0] == "ok":
+            return
+        cur["n"] += 1
+        if cur["n"] % 7 and cur["n"] > 3:
+            return
+        again = S.impl_parse(P, cur["base"])
+        rep.count(("then", m), nontrivial=False, kind="valid-body-after-refused-one")
+        if again != ("ok", cur["want"]):
+            cur["leaked"] = True
+            fail("state-leaks-between-parses", "after TreeBuilder refused %r, a NEW TreeBuilder on the valid body %r -> %r" % (m[:200], cur["base"][:200], again),
+                 text=m, then=cur["base"], expected=cur["want"], observed=again)
+
     def judge(kind, m, via_tree):
         """every mutant the reference reader finds improperly nested must raise (or at least not return a tree)"""
         out = S.impl_parse(P, m)
         texts.append(m)
+        ref_tree = None
         try:
-            S.ref_parse(m)
+            ref_tree = S.ref_parse(m)
             improper = None
         except S.Malformed as e:
             improper = str(e)
+        if kind == "stray-text-after-cdata" and improper is None:
+            # mixed text + CDATA content: as XML the data is the concatenation.  Refusing it is fine (that is what the parser does);
+            # returning a tree from which the text has vanished is not.
+            rep.count(m, nontrivial=True, kind=kind)
+            if out[0] == "ok" and out[1] is not None and out[1] != ref_tree:
+                fail("text-after-cdata-dropped", "TreeBuilder accepted %r and silently dropped the text after the CDATA section: returned %r" % (m[:300], out[1] if len(m) < 300 else "a tree"),
+                     text=m, kind=kind, observed=out, acceptable=["an error", ref_tree])
+            if via_tree and m.isascii() and "\r" not in m:
+                o2 = S.impl_ofxtree(P, m, 102)
+                if o2[0] == "ok" and o2[1] is not None and o2[1] != ref_tree:
+                    fail("text-after-cdata-dropped", "OFXTree.parse accepted header+%r and silently dropped the text after the CDATA section" % (m[:300],),
+                         text=m, kind=kind, via="OFXTree", observed=o2, acceptable=["an error", ref_tree])
+            return
         rep.count(m, nontrivial=(improper is not None), kind=kind if improper is not None else kind + ":still-valid")
         if improper is None:
             return
+        state_check(m, out)
         if out[0] == "ok" and out[1] is not None and kind == "stray-endtag-inside-element" and "<![CDATA[" in m:
             # A CDATA section that does not directly follow a start tag matches no alternative of the regex and is skipped by finditer like
             # any other unmatched markup.  Not one of the fault classes of C08 at token boundaries; reported only when listed as a known finding.
@@ -176,6 +222,9 @@ def run(rep, tier, rng):
             if o2[0] == "ok" and o2[1] is not None:
                 fail("tree-returned:" + kind, "OFXTree.parse accepted header+%r (%s) and returned a tree" % (m[:300], kind), text=m, kind=kind, via="OFXTree", observed=o2)
 
+    probe, probe_tree = "<OFX><A>1</A><B><C>2</B></OFX>", ("OFX", None, [("A", "1", []), ("B", None, [("C", "2", [])])])
+    if S.impl_parse(P, probe) == ("ok", probe_tree):
+        cur.update(base=probe, want=probe_tree)
     # ---------------- corpus first ----------------
     for c in S.load_corpus("C08"):
         judge(c.get("kind", "corpus"), c["text"], True)
@@ -185,14 +234,16 @@ def run(rep, tier, rng):
     small = [d for d in S.small_docs(max_nodes=3) if d[0] == "agg"]
     for d in (small if thorough else rng.sample(small, 30)):
         docs.append((d, 200, 6))
-    for _ in range(900 if thorough else 32):
+    for _ in range(900 if thorough else 26):
         docs.append((S.rand_doc(rng, rng.randint(3, 16), rng.randint(1, 5)), 120 if thorough else 40, 8 if thorough else 4))
     for _ in range(100 if thorough else 4):
         docs.append((S.rand_doc(rng, rng.randint(40, 120), 10, tags=rng.sample(S.TAG_POOL, 6)), 40, 12 if thorough else 5))
     n_valid = 0
     for (d, byte_budget, per_kind) in docs:
-        for style in ((None, "xml", "sgml", "pretty") if S.size(d) <= 16 else (None,)):
-            rd = S.rand_rendering(rng, d, style)
+        for style in ((None, "xml", "sgml", "sgml-cdata", "pretty") if S.size(d) <= 16 else (None, "sgml-cdata")):
+            rd = S.rand_rendering(rng, d, "sgml" if style == "sgml-cdata" else style)
+            if style == "sgml-cdata":        # OFXv1 style: no end tags on data elements, values CDATA-wrapped wherever that is possible
+                rd = with_cdata(rng, rd)
             if S.ambiguous(rd):
                 continue
             ws0 = "" if style else S.rand_ws(rng)
@@ -206,13 +257,16 @@ def run(rep, tier, rng):
                 continue
             rep.count(base, nontrivial=False, kind="valid-body")
             names = sorted({t[1] for t in S.tokens_of(rd)} | {"ZZ", "A"})
+            cur.update(base=base, want=want, n=0)
             for k, (kind, m) in enumerate(mutants(rng, rd, ws0, names, byte_budget, per_kind)):
                 judge(kind, m, via_tree=(k % 9 == 0))
 
     rep.rule = ("mutation stream over valid renderings (documents of <= 3 nodes over 2 tags, random documents to 16 and to 120 nodes; XML, SGML, pretty-printed and "
                 "free mixtures incl. CDATA): every byte truncation before the final '>' (sampled bytes + all token boundaries for long texts), every aggregate "
                 "end-tag deletion, end-tag renaming (names of the document and a fresh one), transposition of end tags, duplication, a stray end tag at every piece "
-                "boundary, stray text after end tags and aggregate start tags, a second top-level element. A mutant is in the property's domain when an independent "
+                "boundary, stray text after end tags and aggregate start tags, stray text directly after the CDATA section of a data element with or without end tag "
+                "(there the parser must refuse or keep the text, never drop it), a second top-level element; after refused mutants the valid body is parsed "
+                "again with a new TreeBuilder and must still give its tree. A mutant is in the property's domain when an independent "
                 "reference reader of the wire syntax finds it improperly nested; then TreeBuilder.feed/close (and OFXTree.parse on a ninth of them) must not "
                 "return a tree. All mutants also go to the Gallina model (outcome class and tree compared). non-trivial = improper mutant")
     rep.extra["observations"] = {OBS_KEY: {"count": len(obs), "example": obs[0] if obs else None,
@@ -236,6 +290,21 @@ def replay(obj):
     s = r["text"]
     out = S.impl_ofxtree(P, s) if r.get("via") == "OFXTree" else S.impl_parse(P, s)
     print("replay %s on %r -> %r" % ("OFXTree.parse" if r.get("via") == "OFXTree" else "TreeBuilder.feed/close", s, out))
+    if "then" in r:
+        again = S.impl_parse(P, r["then"])
+        want = S.tuple_tree(r["expected"])
+        print("then a new TreeBuilder on %r -> %r (expected tree %r)" % (r["then"], again, want))
+        if again != ("ok", want):
+            print("VIOLATION property=C08 replay=(this file)")
+            return 1
+        return 0
+    if "acceptable" in r:
+        want = S.tuple_tree(r["acceptable"][1])
+        bad = out[0] == "ok" and out[1] is not None and out[1] != want
+        print("acceptable: an error, or the tree %r" % (want,))
+        if bad:
+            print("VIOLATION property=C08 replay=(this file)")
+        return 1 if bad else 0
     try:
         S.ref_parse(s)
         print("the reference reader accepts this text: not in the property's domain")
